@@ -3,6 +3,7 @@ import GoRedisModel.Model.ParserImpl
 import GoRedisModel.Model.Show
 import GoRedisModel.Proofs.Interleave
 import GoRedisModel.Model.RefStore
+import GoRedisModel.Model.Lifecycle
 /-! Line-protocol driver: one case per input line, one canonical result per output line.
 Built as the core-only executable `modeldriver`; the definitions it runs are the ones the theorems are about. -/
 open GoRedis
@@ -209,6 +210,17 @@ def prepC12 (ts : List String) : String :=
   let script := String.intercalate " ; " (run.2.reverse.map fun p => s!"c {showCall p.1} {showRes p.2}")
   s!"serve - | {String.intercalate " " streamToks} | {script} | {String.intercalate " " (secs.getD 2 [])} | {String.intercalate " " (secs.getD 3 [])}"
 
+def runLifeCase (ts : List String) : String :=
+  let secs := splitBar ts
+  let cfgToks := secs.headD []
+  let cfg : LifeCfg := cfgToks.foldl (fun c t =>
+    if t == "plain" then { c with plain := true }
+    else if t == "tls" then { c with tls := true }
+    else if t.startsWith "cn=" then { c with cn := some (t.drop 3).toString }
+    else if t.startsWith "pw=" then { c with pw := true }
+    else c) {}
+  String.intercalate " " (lifeRun cfg {} (secs.getD 1 []))
+
 def handleLine (toks : List String) : String :=
   match toks with
   | "enc" :: ts =>
@@ -232,6 +244,7 @@ def handleLine (toks : List String) : String :=
   | "serve" :: ts => runServeCase (parseServeCase ts)
   | "sys" :: ts => runSysCase ts
   | "xserve" :: ts => runXServe ts
+  | "life" :: ts => runLifeCase ts
   | "prep" :: "c12prog" :: ts => prepC12 ts
   | ["globall", n, ph] =>
     let pat := unhex ph
